@@ -11,7 +11,7 @@ CLAIMED = {
  "C07": ("48k value pairs and 62k numeric strings with results recorded from a real JavaScript engine, plus generated pairs against an ECMA-262 model; symmetry, negation, helper == operator; replay of the distilled libFuzzer corpus of fz_eq (campaign in the thorough tier)", "proptest + recorded-ground-truth differential + libFuzzer (coverage-guided, oracle in target); oracle = ECMA-262 abstract equality model"),
  "C08": ("recorded JavaScript === bits, generated pairs (number spellings, adjacent doubles, clones), same-reference operands; negation, symmetry, === implies ==; replay of the distilled libFuzzer corpus of fz_seq (campaign in the thorough tier)", "proptest + recorded-ground-truth differential + libFuzzer; oracle = strict equality model"),
  "C09": ("recorded JavaScript relational bits, 62k numeric strings against numbers, generated pairs and triples; mirror laws and between = conjunction; replay of the distilled libFuzzer corpus of fz_rel (campaign in the thorough tier)", "proptest + recorded-ground-truth differential + libFuzzer; oracle = ECMA-262 relational model, metamorphic laws"),
- "C10": ("generated operand tuples incl. 2^53 / 2^63 / 2^64 boundaries, numeric-string grammar, coerced containers; exact double and spelling class against the model; recorded JS Number()/parseFloat() through - and +; radix literals built on rounding boundaries with the value known by construction; replay of the distilled libFuzzer corpus of fz_arith (campaign in the thorough tier)", "proptest + recorded-ground-truth differential + libFuzzer; oracle = IEEE-754 reference fold"),
+ "C10": ("generated operand tuples incl. 2^53 / 2^63 / 2^64 boundaries, numeric-string grammar, coerced containers; exact double and spelling class against the model; recorded JS Number()/parseFloat() through - and +; radix literals built on rounding boundaries with the value known by construction; compositions of operators over leaves with inexact intermediate results (rounding after every operator: no fused multiply-add, re-association or other algebraic shortcut); replay of the distilled libFuzzer corpus of fz_arith (campaign in the thorough tier)", "proptest + recorded-ground-truth differential + libFuzzer; oracle = IEEE-754 reference fold"),
  "C11": ("data trees with walks built by construction (present / absent / perturbed), escapes, negative and string indices, defaults; model resolution plus the frame law (unrelated data never matters); replay of the distilled libFuzzer corpus of fz_path (campaign in the thorough tier)", "proptest + libFuzzer; oracle = reference resolution + metamorphic frame property"),
  "C12": ("key lists with duplicates, dotted, integer and null keys, literal and computed, thresholds 0..n+1; missing(k) iff var with a sentinel default returns the sentinel; replay of the distilled libFuzzer corpus of fz_missing (campaign in the thorough tier)", "proptest + libFuzzer; oracle = model-free var/sentinel differential + reference model"),
  "C13": ("collections literal / computed / null / non-array, order-sensitive and scope-probing expressions, nested higher-order operators; model plus length / subsequence / fold-order / scope laws", "proptest; oracle = reference model + algebraic laws"),
